@@ -152,5 +152,18 @@ func GenDuring(t *rapid.T) *DuringCase {
 		c.W.From = rapid.SampledFrom(names).Draw(t, "wfrom")
 	}
 	c.DelayUs = rapid.SampledFrom([]int{0, 200, 2000}).Draw(t, "delay")
+	if rapid.IntRange(0, 3).Draw(t, "loopy") == 0 {
+		// the very first application belongs to a raw upcaster that sends
+		// the event back where it came from, directly or through a second
+		// hop, and the writer arrives while that application lingers
+		back := Op{K: "reg", From: names[0], To: names[1], F: "ret:" + names[0]}
+		if c.NName >= 3 && rapid.Bool().Draw(t, "twoHops") {
+			back = Op{K: "reg", From: names[0], To: names[1], F: "faithful"}
+			c.Setup = append([]Op{{K: "reg", From: names[1], To: names[2], F: "ret:" + names[0]}}, c.Setup...)
+		}
+		c.Setup = append([]Op{back}, c.Setup...)
+		c.At = 1
+		c.DelayUs = rapid.SampledFrom([]int{200, 2000}).Draw(t, "loopyDelay")
+	}
 	return c
 }
